@@ -50,7 +50,8 @@ func (Prop) Rule() string {
 		"FAULTS: for every content stream and every read index k the fault-free run makes, answers {error, EOF, half block then EOF}: error returned, every other result nil/empty, no panic; " +
 		"answers {(0,nil) once, legal short read}: output and consumption identical to the fault-free run (streams of <=2 blocks; thorough tier <=3 blocks); " +
 		"thorough tier adds two deviations for streams of <=2 blocks: a short answer at call c1 and any of the five answers at a later call c2 (error required iff call c2 was made and is a fault). " +
-		"distinct_nontrivial counts distinct (operation, stream-label-sequence) and (operation, fault kind, read index) classes."
+		"distinct_nontrivial counts distinct (operation, stream-label-sequence) and (operation, fault kind, read index) classes." +
+		widenRule()
 }
 
 func (Prop) Assumptions() []string {
@@ -64,6 +65,10 @@ func (Prop) Assumptions() []string {
 		"sm2.sign.legacy-p256 is skipped in c-purego: with -tags purego on amd64 the Go 1.23 standard library's elliptic.P256().Inverse panics ('nistec rejected normalized scalar') for every input, before any sampling question arises",
 		"legacy curves whose order is not a multiple of 8 bits (P-224, P-521: top-bit masking) are outside the property's 32-byte statement and are not covered; only NIST P-256 is run through the legacy path",
 		"dispatch tiers c-default and c-purego on amd64; arm64/ppc64le/s390x assembly is not covered",
+		"widened families: GM/T 0044.4 restarts a one-byte XOR encryption when K1 is all zero, the library only when K1||K2 is; the property statement fixes neither, so a scalar with K1 = 0 is a don't-care value (either choice, consistent output and consumption)",
+		"widened families: an answer that carries the whole request together with an error is accepted by io.ReadFull; success with the output for the delivered bytes and an error without output are both accepted; the same holds for a failing one-byte read, whose result randutil.MaybeReadByte ignores",
+		"widened families: a repeated InitKeyExchange/RespondKeyExchange on one object is taken as allowed (the library allows it): every successful call must use its own block and the confirmation step belongs to the last successful call; ephemeral keys returned by the key-exchange objects are not overwritten by the harness (ownership of those is C08/C10)",
+		"widened families: smx509.csr evaluates no restart branch (the digest is not under the stream's control); the hybrid point form is compared as x||y; other rand-taking entry points outside the anchored packages (certificates, CRLs, PKCS#7/8) are not run",
 	}
 }
 
@@ -151,6 +156,7 @@ type obs struct {
 	out  []byte // canonical serialisation of every scalar-dependent output (valid when err == nil && bad == "")
 	leak string // non-empty: outputs that were not nil/empty although an error was returned
 	bad  string // non-empty: the operation succeeded but its output is malformed / a follow-up step failed
+	badKey string // optional finding-key suffix for bad (default "malformed-output")
 }
 
 type opDef struct {
@@ -174,6 +180,9 @@ type opDef struct {
 	// opRejects: the operation itself discards this in-range scalar and returns to the sampling step (SM2 encryption
 	// step A5: the derived mask is all zero). Such a block may be followed by further blocks in a stream.
 	opRejects func(v *big.Int) bool
+	// opEither: the standard and the library disagree (or the property is silent) on whether this in-range scalar is
+	// passed over: both behaviours are accepted, the output and the consumption must match the choice made.
+	opEither func(v *big.Int) bool
 
 	maskDone bool
 	mask     []byte
@@ -188,6 +197,9 @@ func (o *opDef) class(v *big.Int) int {
 	if v.Cmp(hi) <= 0 {
 		if o.opRejects != nil && o.opRejects(v) {
 			return clsEither // generated both as a block that is passed over and as a last block (the tails follow)
+		}
+		if o.opEither != nil && o.opEither(v) {
+			return clsEither
 		}
 		return clsAcc
 	}
@@ -368,7 +380,11 @@ func runSeq(t *engine.T, ops []*opDef, stream []byte, label string) []seqResult 
 			return res
 		}
 		if ob.bad != "" {
-			t.Fail(o.name+"/malformed-output", "%s: %s", where, ob.bad)
+			bk := "malformed-output"
+			if ob.badKey != "" {
+				bk = ob.badKey
+			}
+			t.Fail(o.name+"/"+bk, "%s: %s", where, ob.bad)
 			return res
 		}
 		cs, definite := o.walk(stream, pos, mask)
@@ -774,6 +790,9 @@ func (Prop) Run(c *engine.Ctx) {
 			}
 		})
 	}
+
+	// 4.-7. widening by checklist (widen*.go)
+	runWiden(c, ops)
 }
 
 // streamsFrom2 lists all streams of <= 2 blocks (<= 1 rejection) of the operation under the given mask.
